@@ -71,6 +71,40 @@ theorem Hash1_tie_embed (sha : Bytes → Bytes) (files : List Bytes) (openF : By
     | error er => cases er <;> rfl
   rw [he]; exact h
 
+/-- ★ the same for an ARBITRARY `open` callback (error texts may depend on the name, a failing call may return any
+    content): the model's `open` function is `openFOf open_` (the content when the error is nil), and in the error case
+    the returned error is `firstErr`: that of the first name, in sorted order, that contains a newline (the fixed text)
+    or cannot be opened (the callback's own error).  `Hash1_tie` is the instance with a constant error text. -/
+theorem Hash1_tie_anyOpen (sha : Bytes → Bytes) (files : List Bytes) (open_ : Bytes → Bytes × Option String)
+    (fuel : Nat) (hf : files.length + 1 ≤ fuel) :
+    Generated.Dirhash.Hash1 Base64.encodeStd (fun acc pre => pre ++ sha acc) fuel files open_
+      = .ok (match Dirhash.hash1 sha files (openFOf open_) with
+          | .ok h => (h, none)
+          | .error _ => ([], firstErr open_ (Dirhash.sortStrings files))) := by
+  have hlen : (Dirhash.sortStrings files).length < fuel := by
+    rw [(Dirhash.sortStrings_perm files).length_eq]; omega
+  have hloop := Hash1_loop1_any Base64.encodeStd sha open_ (Dirhash.sortStrings files) [] [] fuel hlen
+  simp only [List.nil_append, List.length_nil] at hloop
+  unfold Generated.Dirhash.Hash1
+  simp only [emptyBytes, List.nil_append, sortStrings_eq]
+  show (Generated.Dirhash.Hash1_loop1 Base64.encodeStd (fun acc pre => pre ++ sha acc) (Dirhash.sortStrings files)
+      open_ fuel ((0 : Nat) : Int) [] >>= _) = _
+  rw [hloop]
+  unfold Dirhash.hash1 Dirhash.summary
+  cases hs : Dirhash.summaryLoop sha (openFOf open_) (Dirhash.sortStrings files) with
+  | error er => simp [loopResAny, bind, Except.bind, pure, Except.pure]
+  | ok s => simp [loopResAny, bind, Except.bind, pure, Except.pure, Dirhash.h1Prefix]
+
+/-- in `Hash1_tie_anyOpen` the returned error is non-nil exactly when the model reports an error -/
+theorem firstErr_isSome_iff (sha : Bytes → Bytes) (files : List Bytes) (open_ : Bytes → Bytes × Option String) :
+    (∃ er, Dirhash.hash1 sha files (openFOf open_) = .error er) ↔
+      (firstErr open_ (Dirhash.sortStrings files)).isSome = true := by
+  rw [← summaryLoop_error_iff sha open_]
+  unfold Dirhash.hash1 Dirhash.summary
+  cases hs : Dirhash.summaryLoop sha (openFOf open_) (Dirhash.sortStrings files) with
+  | error er => simp
+  | ok s => simp
+
 /-- the catch-all branch of `Hash1_tie` is the `openFail` branch: the model's `hash1` reports no other error -/
 theorem hash1_error_cases (sha : Bytes → Bytes) (files : List Bytes) (openF : Bytes → Option Bytes)
     (er : Dirhash.Err) (h : Dirhash.hash1 sha files openF = .error er) : er = .newline ∨ er = .openFail :=
@@ -105,6 +139,16 @@ example : Generated.Dirhash.Hash1 Base64.encodeStd (fun acc pre => pre ++ id acc
     = .ok ([], some "E") := by decide
 
 example : Dirhash.hash1 id [[98, 10], [97]] (fun _ => none) = .error .openFail := by decide
+
+/-- `Hash1_tie_anyOpen`: error texts that depend on the name; the first failing name in SORTED order decides -/
+example : Generated.Dirhash.Hash1 Base64.encodeStd (fun acc pre => pre ++ id acc) 3 [[98], [97]]
+      (fun n => ([7], some (if n = [97] then "Ea" else "Eb")))
+    = .ok ([], some "Ea") := by decide
+
+example : (match Dirhash.hash1 id [[98], [97]] (openFOf fun n => ([7], some (if n = [97] then "Ea" else "Eb"))) with
+      | .ok h => (h, none)
+      | .error _ => ([], firstErr (fun n => ([7], some (if n = [97] then "Ea" else "Eb")))
+          (Dirhash.sortStrings [[98], [97]]))) = ([], some "Ea") := by decide
 
 /-- the fuel bound is sharp: with `files.length` units of fuel the loop runs out -/
 example : Generated.Dirhash.Hash1 Base64.encodeStd (fun acc pre => pre ++ id acc) 2 [[98], [97]]
